@@ -19,7 +19,7 @@ use super::*;
 use super::spec::*;
 
 pub enum IntervalError { InvalidBounds, EmptyInterval }
-//@item src/interval.rs enum Interval
+//@item src/interval.rs enum Interval expect_derive=PartialEq
 // #[derive(PartialEq)] of the enum, restated (derive output is invisible at source level; decided by Kani c14_partial_eq_*)
 impl<T: PartialOrd> PartialEq for Interval<T> {
     fn eq(&self, other: &Self) -> (r: bool) {
